@@ -94,7 +94,11 @@ func writeManPageOptions(wr io.Writer, grp *Group) {
 				}
 			}
 
-			if len(opt.Default) != 0 {
+			if len(opt.DefaultMask) != 0 {
+				if opt.DefaultMask != "-" {
+					fmt.Fprintf(wr, " <default: \\fI%s\\fR>", manQuote(opt.DefaultMask))
+				}
+			} else if len(opt.Default) != 0 {
 				fmt.Fprintf(wr, " <default: \\fI%s\\fR>", manQuote(strings.Join(quoteV(opt.Default), ", ")))
 			} else if len(opt.EnvKeyWithNamespace()) != 0 {
 				if runtime.GOOS == "windows" {
